@@ -44,6 +44,8 @@ abbrev Q15ONE_BITS : Int := 1065353216
 /-- silk_LSHIFT( silk_lin2log( VARIABLE_HP_MIN_CUTOFF_HZ ), 8 ) (VARIABLE_HP_MIN_CUTOFF_HZ = 60) -/
 abbrev HP_SMTH2_INIT : Int := 193536
 
+def isSilkMode (m : Int) : Bool := m = MODE_SILK_ONLY || m = MODE_HYBRID
+
 /-- A DSP-owned memory region: bitwise the freshly initialised content, or anything else. -/
 inductive Blob
   | fresh
@@ -296,7 +298,7 @@ def encFresh (fs channels arch silkOff celtOff : Int) (c : Settings) : Enc :=
 
 /-- The members of the encoder object that some later call may read before writing them.
     Omitted (each is assigned on every path before its first use in a call — `bitrate_bps` at
-    opus_encoder.c:1249; `silk_mode.nChannelsAPI … useCBR, maxBits` at :1942-2071; `internalSampleRate,
+    opus_encoder.c:1249; `silk_mode.nChannelsAPI, maxInternalSampleRate … useCBR, maxBits` at :1942-2071; `internalSampleRate,
     stereoWidth_Q14, switchReady, signalType, offset` are outputs of silk_Encode read after it; CELT's
     `stream_channels, start, end, bitrate, vbr, constrained_vbr, lsb_depth` at :1598, :2157-2160,
     :2294-2336): `bitrateBps`, those `silkMode` and `celt` members.
@@ -306,6 +308,8 @@ def encFresh (fs channels arch silkOff celtOff : Int) (c : Settings) : Enc :=
                       is compared with the new choice (:1389-1399) only to clear `nb_no_activity_ms_Q1` and
                       SILK's noSpeechCounter, which does nothing while both are still zero (no frame
                       completed since the reset, SILK state fresh), and is then overwritten;
+      `nChannelsInternal` assigned before silk_Encode (:2014); between calls OPUS_GET_IN_DTX (:3141) reads it, only when
+                      `prev_mode` is SILK or hybrid, i.e. after a frame that assigned it;
       `opusCanSwitch` read by silk_control_audio_bandwidth only when the SILK state has a sampling
                       rate, i.e. is not freshly initialised (silk/control_audio_bandwidth.c:45-49). -/
 structure View where
@@ -365,6 +369,7 @@ structure View where
   inWBmodeWithoutVariableLP : Int
   toMonoGated : Int
   useDTXGated : Int
+  nChannelsInternalGated : Int
   opusCanSwitchGated : Int
   -- CELT configuration
   celtChannels : Int
@@ -406,6 +411,7 @@ def view (s : Enc) : View :=
     toMonoGated := if s.prevChannels = 2 then s.silkMode.toMono else 0,
     useDTXGated := if s.prevMode = MODE_SILK_ONLY ∨ s.prevMode = MODE_HYBRID ∨ s.nbNoActivityMsQ1 ≠ 0 ∨ s.silkState ≠ .fresh
                    then s.silkMode.useDTX else 0,
+    nChannelsInternalGated := if s.prevMode = MODE_SILK_ONLY ∨ s.prevMode = MODE_HYBRID then s.silkMode.nChannelsInternal else 0,
     opusCanSwitchGated := if s.silkState = .fresh then 0 else s.silkMode.opusCanSwitch,
     celtChannels := s.celt.channels, celtForceIntra := s.celt.forceIntra, celtClip := s.celt.clip,
     celtDisablePf := s.celt.disablePf, celtComplexity := s.celt.complexity, celtUpsample := s.celt.upsample,
@@ -589,9 +595,13 @@ def encodeStep (O : Oracles) (s : Enc) (x : Inp) : Enc × Out :=
   | p =>
     let a := O.phaseA v x
     let b := O.phaseB v a x
+    -- SILK ran if the oracle says so, and certainly when a completed frame leaves `prev_mode` SILK / hybrid
+    let ran : Bool := match p with
+      | .full => b.silkRan || isSilkMode b.prevMode
+      | _ => b.silkRan
     -- silk_mode: the members assigned before / by silk_Encode when SILK runs; always useDTX (:1399),
     -- toMono (:1498-1501), LBRR_coded (:1607)
-    let sm : SilkCtl := if b.silkRan then b.silkMode else s.silkMode
+    let sm : SilkCtl := if ran then b.silkMode else s.silkMode
     let sm := { sm with
                 useDTX := b.useDTX, toMono := b.toMono, lbrrCoded := b.lbrrCoded,
                         packetLossPercentage := s.silkMode.packetLossPercentage,
@@ -604,7 +614,7 @@ def encodeStep (O : Oracles) (s : Enc) (x : Inp) : Enc × Out :=
                detectedBandwidth := b.detectedBandwidth, streamChannels := b.streamChannels,
                forceChannels := b.forceChannels, mode := b.mode, bandwidth := b.bandwidth,
                autoBandwidth := b.autoBandwidth, silkMode := sm,
-               silkState := if b.silkRan then b.silkState else s.silkState,
+               silkState := if ran then b.silkState else s.silkState,
                celtState := b.celtState,
                celt := { b.celt with
                          channels := s.celt.channels, clip := s.celt.clip,
